@@ -119,34 +119,59 @@ Proof.
   - intros t Ht. rewrite R1 in Ht. exact (R t Ht).
 Qed.
 
+Lemma svc_remove_eff W W' f fs : eff W W' fs -> eff W (svc_remove W' f) fs.
+Proof.
+  intros [[rs [E P]] R]. destruct (svc_remove_fields W' f) as [[_ [_ [_ [_ [_ [_ [_ [_ [_ RP]]]]]]]]] [_ [_ [LG _]]]]. split.
+  - exists rs. split; [rewrite LG; exact E|exact P].
+  - intros t Ht. rewrite RP in Ht. exact (R t Ht).
+Qed.
+Lemma svc_register_eff W W' f fs : eff W W' fs -> eff W (svc_register W' f) fs.
+Proof.
+  intros [[rs [E P]] R]. destruct (svc_register_fields W' f) as [[_ [_ [_ [_ [_ [_ [_ [_ [_ RP]]]]]]]]] [_ [_ [LG _]]]]. split.
+  - exists rs. split; [rewrite LG; exact E|exact P].
+  - intros t Ht. rewrite RP in Ht. exact (R t Ht).
+Qed.
+
 Lemma leg_func_stop_eff cfg W f : eff W (leg_func_stop cfg W f) (if memn (f_gen f) (w_active W) then [f] else []).
 Proof.
   unfold leg_func_stop. destruct (memn (f_gen f) (w_active W)); [|apply eff_refl].
   pose proof (fold_eff (leg_unit_stop cfg) f (fun W u Hu => leg_unit_stop_eff cfg W f u Hu) (f_units f) W (fun u H => H)) as E.
-  set (W1 := fold_left (leg_unit_stop cfg) (f_units f) W) in *.
-  destruct E as [[rs [E P]] R]. split.
-  - exists rs. split; [|exact P]. destruct (f_svc f); wsimpl; exact E.
-  - intros t Ht. apply R. destruct (f_svc f); wsimpl; exact Ht.
+  apply (svc_remove_eff _ _ f) in E. cbv zeta.
+  destruct E as [[rs [E P]] R]. split; [exists rs; split; [exact E|exact P]|exact R].
 Qed.
+
+Lemma stop_if_running_eff cfg W f u : In u (f_units f) -> eff W (stop_if_running cfg W u) [f].
+Proof. intros Hu. unfold stop_if_running. destruct (memn (u_id u) (w_running W)); [apply dec_unit_stop_eff; exact Hu|apply eff_refl]. Qed.
+Lemma start_if_idle_eff W f u : In u (f_units f) -> eff W (start_if_idle W u) [f].
+Proof. intros Hu. unfold start_if_idle. destruct (memn (u_id u) (w_running W)); [apply eff_refl|apply dec_unit_start_eff; exact Hu]. Qed.
 
 Lemma dm_stop_eff cfg W f : eff W (dm_stop cfg W f) [f].
 Proof.
   unfold dm_stop.
-  pose proof (fold_eff (dec_unit_stop cfg) f (fun W u Hu => dec_unit_stop_eff cfg W f u Hu) (f_units f) W (fun u H => H)) as E.
-  set (W1 := fold_left (dec_unit_stop cfg) (f_units f) W) in *.
-  destruct E as [[rs [E P]] R]. split.
-  - exists rs. split; [|exact P]. destruct (f_svc f); wsimpl; exact E.
-  - intros t Ht. apply R. destruct (f_svc f); wsimpl; exact Ht.
+  pose proof (fold_eff (stop_if_running cfg) f (fun W u Hu => stop_if_running_eff cfg W f u Hu) (f_units f) W (fun u H => H)) as E.
+  set (W1 := fold_left (stop_if_running cfg) (f_units f) W) in *. cbv zeta.
+  assert (E2 : eff W (if memn (f_gen f) (l_svc (w_led W1)) then svc_remove W1 f else W1) [f]).
+  { destruct (memn (f_gen f) (l_svc (w_led W1))); [apply svc_remove_eff; exact E|exact E]. }
+  destruct E2 as [[rs [E2 P]] R]. split; [exists rs; split; [exact E2|exact P]|exact R].
 Qed.
 
-Lemma dm_start_eff W f : eff W (dm_start W f) [f].
+Lemma dm_begin_eff cfg W f : eff W (dm_begin cfg W f) [f].
 Proof.
-  unfold dm_start. set (W0 := set_delayed W (deln (f_gen f) (w_delayed W))).
-  pose proof (fold_eff dec_unit_start f (fun W u Hu => dec_unit_start_eff W f u Hu) (f_units f) W0 (fun u H => H)) as E.
-  set (W1 := fold_left dec_unit_start (f_units f) W0) in *.
-  destruct E as [[rs [E P]] R]. split.
-  - exists rs. split; [|exact P]. destruct (f_svc f); wsimpl; exact E.
-  - intros t Ht. apply R. destruct (f_svc f); wsimpl; exact Ht.
+  unfold dm_begin. set (W0 := set_delayed W (deln (f_gen f) (w_delayed W))).
+  assert (E0 : eff W W0 [f]) by (apply eff_same; reflexivity).
+  assert (FN : forall u, In u (firstn (f_pos f) (f_units f)) -> In u (f_units f)) by (intros u Hu; apply (firstn_In _ _ _ Hu)).
+  assert (M : forall x, In x ([f] ++ [f]) -> In x [f]) by (intros x [<-|[<-|[]]]; left; reflexivity).
+  destruct (f_svc f).
+  - pose proof (fold_eff dec_unit_start f (fun W u Hu => dec_unit_start_eff W f u Hu) (firstn (f_pos f) (f_units f)) W0 FN) as E1.
+    set (W1 := fold_left dec_unit_start (firstn (f_pos f) (f_units f)) W0) in *.
+    assert (E01 : eff W W1 [f]) by (apply (eff_mono _ _ _ _ M); exact (eff_trans W W0 W1 [f] [f] E0 E1)).
+    destruct (svc_refused W1 f).
+    + pose proof (fold_eff (dec_unit_stop cfg) f (fun W u Hu => dec_unit_stop_eff cfg W f u Hu) (firstn (f_pos f) (f_units f)) W1 FN) as E2.
+      cbv zeta. apply (eff_mono _ _ _ _ M). eapply eff_trans; [exact E01|].
+      destruct E2 as [[rs [E2 P]] R]. split; [exists rs; split; [exact E2|exact P]|exact R].
+    + cbv zeta. apply (svc_register_eff _ _ f) in E01. destruct E01 as [[rs [E2 P]] R]. split; [exists rs; split; [exact E2|exact P]|exact R].
+  - pose proof (fold_eff dec_unit_start f (fun W u Hu => dec_unit_start_eff W f u Hu) (f_units f) W0 (fun u H => H)) as E1.
+    apply (eff_mono _ _ _ _ M). exact (eff_trans _ _ _ [f] [f] E0 E1).
 Qed.
 
 Lemma leg_func_start_eff W f fs : eff W (leg_func_start W f) fs.
@@ -158,11 +183,11 @@ Proof.
 Qed.
 
 (* ---- context level: the functions acted on were registered and active when the operation began ------- *)
-Lemma ctx_start_func_eff W f : exists fs, eff W (ctx_start_func W f) fs /\ forall f', In f' fs -> f' = f /\ In (f_gen f) (w_active W).
+Lemma ctx_start_func_eff cfg W f : exists fs, eff W (ctx_start_func cfg W f) fs /\ forall f', In f' fs -> f' = f /\ In (f_gen f) (w_active W).
 Proof.
   unfold ctx_start_func. destruct (memn (f_gen f) (w_active W) && memn (f_gen f) (w_delayed W)) eqn:C.
   - apply andb_true_iff in C. destruct C as [C _]. apply memn_In in C. exists [f]. split.
-    + destruct (f_new f); [apply dm_start_eff|].
+    + destruct (f_new f); [apply dm_begin_eff|].
       pose proof (leg_func_start_eff (set_delayed W (deln (f_gen f) (w_delayed W))) f [f]) as [[rs [E P]] R].
       split; [exists rs; split; [exact E|exact P]|exact R].
     + intros f' [<-|[]]. split; [reflexivity|exact C].
@@ -226,29 +251,54 @@ Proof.
   apply fold_ctx_stop_eff; try assumption. intros f Hf. destruct HB as [F _]. rewrite <- F. exact Hf.
 Qed.
 
-Lemma fold_ctx_start_eff c W0 : forall fs W, Inv W -> w_funcs W = w_funcs W0 -> w_active W = w_active W0 ->
-  (forall f, In f fs -> In f (w_funcs W0)) ->
-  effA W0 W (fold_left (fun W f => if N.eqb (f_ctx f) c then ctx_start_func W f else W) fs W).
+Lemma fold_ctx_start_eff cfg c W0 : all_off cfg -> forall fs W, Inv W -> below W0 W -> (forall f, In f fs -> In f (w_funcs W0)) ->
+  effA W0 W (fold_left (fun W f => if N.eqb (f_ctx f) c then ctx_start_func cfg W f else W) fs W).
 Proof.
-  induction fs as [|a r IH]; intros W HI HFu HA HF; cbn [fold_left]; [apply effA_refl|].
-  set (W1 := if N.eqb (f_ctx a) c then ctx_start_func W a else W).
-  assert (Ha : In a (w_funcs W)) by (rewrite HFu; apply HF; left; reflexivity).
-  assert (X : Inv W1 /\ w_funcs W1 = w_funcs W /\ w_active W1 = w_active W /\ effA W0 W W1).
+  intros AO. induction fs as [|a r IH]; intros W HI HB HF; cbn [fold_left]; [apply effA_refl|].
+  set (W1 := if N.eqb (f_ctx a) c then ctx_start_func cfg W a else W).
+  assert (Ha : In a (w_funcs W)) by (destruct HB as [F _]; rewrite F; apply HF; left; reflexivity).
+  assert (X : Inv W1 /\ shrink W W1 /\ effA W0 W W1).
   { unfold W1. destruct (N.eqb (f_ctx a) c).
-    - destruct (ctx_start_func_inv W a HI Ha) as [A [[T _] B]]. split; [exact A|split; [exact T|split; [exact B|]]].
-      destruct (ctx_start_func_eff W a) as [fs' [E P]]. exists fs'. split; [exact E|].
-      intros f Hf. destruct (P f Hf) as [-> Q]. split; [apply HF; left; reflexivity|rewrite <- HA; exact Q].
-    - split; [exact HI|split; [reflexivity|split; [reflexivity|apply effA_refl]]]. }
-  destruct X as [H1 [T1 [A1 E1]]].
-  eapply effA_trans; [exact E1|]. apply IH; [exact H1|congruence|congruence|].
+    - destruct (ctx_start_func_inv cfg W a AO HI Ha) as [A [T B]]. split; [exact A|split; [split; assumption|]].
+      destruct (ctx_start_func_eff cfg W a) as [fs' [E P]]. exists fs'. split; [exact E|].
+      intros f Hf. destruct (P f Hf) as [-> Q]. split; [apply HF; left; reflexivity|]. destruct HB as [_ HA]. apply HA. exact Q.
+    - split; [exact HI|split; [apply shrink_refl|apply effA_refl]]. }
+  destruct X as [H1 [S1 E1]].
+  eapply effA_trans; [exact E1|]. apply IH; [exact H1|exact (below_shrink _ _ _ HB S1)|].
   intros f Hf. apply HF. right; exact Hf.
 Qed.
 
-Lemma ctx_start_eff c W : Inv W -> effA W W (ctx_start c W).
+Lemma ctx_start_eff cfg c W : all_off cfg -> Inv W -> effA W W (ctx_start cfg c W).
 Proof.
-  intros HI. unfold ctx_start. apply (effA_status W W _ (fun V => set_auto V (addn c (w_auto V)))); [intros V; split; reflexivity|].
-  apply fold_ctx_start_eff; try assumption || reflexivity. auto.
+  intros AO HI. unfold ctx_start. apply (effA_status W W _ (fun V => set_auto V (addn c (w_auto V)))); [intros V; split; reflexivity|].
+  apply fold_ctx_start_eff; try assumption; [apply below_refl|auto].
 Qed.
+
+Lemma dm_resume_eff g W : effA W W (dm_resume g W).
+Proof.
+  unfold dm_resume. destruct (find_func W g) as [f|] eqn:FF; [|apply effA_refl].
+  destruct (find_func_some W g f FF) as [Hf EG]. subst g.
+  destruct (memn (f_gen f) (w_starting W) && f_new f); [|apply effA_refl]. cbv zeta.
+  set (W0 := set_starting W (deln (f_gen f) (w_starting W))).
+  assert (E0 : eff W W0 [f]) by (apply eff_same; reflexivity).
+  destruct (memn (f_gen f) (w_active W) && negb (memn (f_gen f) (w_delayed W))) eqn:C.
+  - apply andb_true_iff in C. destruct C as [CA _]. apply memn_In in CA. exists [f]. split; [|intros f' [<-|[]]; auto].
+    pose proof (fold_eff start_if_idle f (fun W u Hu => start_if_idle_eff W f u Hu) (f_units f) W0 (fun u H => H)) as E1.
+    apply (eff_mono _ _ ([f] ++ [f])); [intros x [<-|[<-|[]]]; left; reflexivity|]. exact (eff_trans _ _ _ [f] [f] E0 E1).
+  - exists []. split; [apply eff_same; reflexivity|intros f' []].
+Qed.
+
+Lemma fold_resume_eff W0 : forall gs W, Inv W -> below W0 W -> effA W0 W (fold_left (fun W g => dm_resume g W) gs W).
+Proof.
+  induction gs as [|a r IH]; intros W HI HB; cbn [fold_left]; [apply effA_refl|].
+  destruct (dm_resume_inv a W HI) as [H1 [[T1 _] [A1 _]]].
+  eapply effA_trans; [|apply IH; [exact H1|]].
+  - destruct (dm_resume_eff a W) as [fs [E P]]. exists fs. split; [exact E|]. intros f Hf. destruct HB as [HF HA].
+    destruct (P f Hf) as [X Y]. split; [rewrite <- HF; exact X|apply HA; exact Y].
+  - destruct HB as [HF HA]. split; [congruence|]. intros x Hx. apply HA. rewrite <- A1. exact Hx.
+Qed.
+Lemma resume_all_eff W0 W : Inv W -> below W0 W -> effA W0 W (resume_all W).
+Proof. apply fold_resume_eff. Qed.
 
 Lemma dropped_eff cfg g W : effA W W (dropped cfg g W).
 Proof.
@@ -311,55 +361,77 @@ Lemma unload_eff cfg W : all_off cfg -> Inv W -> effA W W (unload cfg W).
 Proof.
   intros AO HI. unfold unload.
   destruct (fold_unload cfg AO (all_ctxs W) W HI) as [H1 [S1 _]].
+  set (W1 := fold_left (fun W c => ctx_stop cfg c W) (all_ctxs W) W) in *.
+  pose proof (below_shrink _ _ _ (below_refl W) S1) as B1.
+  destruct (resume_all_inv W1 H1) as [H2 [[T2 _] [A2 _]]].
   eapply effA_trans; [apply (fold_unload_eff cfg W AO (all_ctxs W) W HI (below_refl W))|].
-  apply settle_eff; [exact H1|exact (below_shrink _ _ _ (below_refl W) S1)].
+  eapply effA_trans; [apply resume_all_eff; eassumption|].
+  apply settle_eff; [exact H2|]. destruct B1 as [F B]. split; [congruence|]. intros x Hx. apply B. rewrite <- A2. exact Hx.
 Qed.
 
 (* ---- what one step can do ----------------------------------------------------------------------- *)
 Definition is_occ (o : op) : bool := match o with OState _ | OEvent _ | OTick | OCall _ => true | _ => false end.
 
-Lemma define_tables c n s W : exists fnew, w_funcs (define c n s W) = w_funcs W ++ [fnew] /\ f_gen fnew = w_next W /\
-  w_next W <= w_next (define c n s W) /\
-  (forall x, In x (w_active (define c n s W)) -> In x (w_active W) \/ x = w_next W) /\
-  exists fs, eff W (define c n s W) fs /\ forall f, In f fs -> f = fnew.
+(* structural: no unit-level operation touches the function table, the id counter or the active set *)
+Definition tbl (W W' : world) : Prop := w_funcs W' = w_funcs W /\ w_next W' = w_next W /\ w_active W' = w_active W.
+Lemma tbl_fold (g : world -> unit_ -> world) : (forall W u, tbl W (g W u)) -> forall us W, tbl W (fold_left g us W).
+Proof.
+  intros H us. induction us as [|a r IH]; intros W; cbn [fold_left]; [repeat split; reflexivity|].
+  destruct (H W a) as [A1 [A2 A3]]. destruct (IH (g W a)) as [B1 [B2 B3]]. repeat split; congruence.
+Qed.
+Lemma ctx_start_func_tables cfg W f : w_funcs (ctx_start_func cfg W f) = w_funcs W /\ w_next (ctx_start_func cfg W f) = w_next W /\
+  forall x, In x (w_active (ctx_start_func cfg W f)) -> In x (w_active W).
+Proof.
+  unfold ctx_start_func. destruct (memn (f_gen f) (w_active W) && memn (f_gen f) (w_delayed W)); [|repeat split; auto].
+  set (W0 := set_delayed W (deln (f_gen f) (w_delayed W))).
+  destruct (f_new f).
+  - unfold dm_begin. fold W0. destruct (f_svc f).
+    + destruct (tbl_fold dec_unit_start (fun W u => conj eq_refl (conj eq_refl eq_refl)) (firstn (f_pos f) (f_units f)) W0) as [A1 [A2 A3]].
+      set (W1 := fold_left dec_unit_start (firstn (f_pos f) (f_units f)) W0) in *.
+      destruct (svc_refused W1 f).
+      * destruct (tbl_fold (dec_unit_stop cfg) (fun W u => conj eq_refl (conj eq_refl eq_refl)) (firstn (f_pos f) (f_units f)) W1) as [B1 [B2 B3]].
+        cbv zeta. wsimpl. rewrite B1, B2, B3, A1, A2, A3. repeat split. intros x Hx. apply In_deln in Hx. tauto.
+      * cbv zeta. destruct (svc_register_fields W1 f) as [[F [Nx _]] [SA _]]. wsimpl. rewrite F, Nx, SA, A1, A2, A3. repeat split. auto.
+    + destruct (tbl_fold dec_unit_start (fun W u => conj eq_refl (conj eq_refl eq_refl)) (f_units f) W0) as [A1 [A2 A3]].
+      rewrite A1, A2, A3. repeat split. auto.
+  - unfold leg_func_start. destruct (tbl_fold leg_unit_start (fun W u => conj eq_refl (conj eq_refl eq_refl)) (f_units f) W0) as [A1 [A2 A3]].
+    rewrite A1, A2, A3. repeat split. auto.
+Qed.
+
+Lemma define_tables cfg c n s W : exists fnew, w_funcs (define cfg c n s W) = w_funcs W ++ [fnew] /\ f_gen fnew = w_next W /\
+  w_next W <= w_next (define cfg c n s W) /\
+  (forall x, In x (w_active (define cfg c n s W)) -> In x (w_active W) \/ x = w_next W) /\
+  exists fs, eff W (define cfg c n s W) fs /\ forall f, In f fs -> f = fnew.
 Proof.
   unfold define.
   set (gen := w_next W).
   set (units := number_units gen (gen + 1) (if n then new_protos s else legacy_protos s)).
-  set (f := {| f_gen := gen; f_ctx := c; f_new := n; f_units := units; f_svc := s_svc s |}).
-  set (L1 := if s_svc s && negb n then set_svc (w_led W) (addn gen (l_svc (w_led W))) else w_led W).
-  set (W1 := {| w_led := L1; w_funcs := w_funcs W ++ [f]; w_active := w_active W ++ [gen]; w_delayed := w_delayed W ++ [gen];
-                w_pending := w_pending W; w_zombie := w_zombie W; w_running := w_running W; w_auto := w_auto W;
-                w_next := gen + 1 + N.of_nat (length units); w_log := w_log W |}).
-  exists f. cbv zeta. 
-  assert (R1 : l_reap (w_led W1) = l_reap (w_led W)) by (cbn; unfold L1; destruct (s_svc s && negb n); reflexivity).
-  assert (A1 : forall x, In x (w_active W1) -> In x (w_active W) \/ x = gen).
-  { intros x Hx. cbn in Hx. apply in_app_or in Hx. destruct Hx as [Hx|[<-|[]]]; auto. }
+  set (f := {| f_gen := gen; f_ctx := c; f_new := n; f_units := units; f_svc := s_svc s; f_pos := s_pos s |}).
+  set (Wf := {| w_led := w_led W; w_funcs := w_funcs W ++ [f]; w_active := w_active W; w_delayed := w_delayed W;
+                w_pending := w_pending W; w_zombie := w_zombie W; w_running := w_running W; w_starting := w_starting W;
+                w_hdl := w_hdl W; w_auto := w_auto W; w_next := gen + 1 + N.of_nat (length units); w_log := w_log W |}).
+  exists f. cbv zeta.
+  assert (EF : eff W Wf []) by (apply eff_same; reflexivity).
+  destruct (negb n && svc_refused Wf f).
+  { split; [reflexivity|split; [reflexivity|split; [cbn; lia|split; [auto|]]]]. exists []. split; [exact EF|intros f' []]. }
+  set (Ws := if n then Wf else svc_register Wf f).
+  assert (XS : w_funcs Ws = w_funcs Wf /\ w_next Ws = w_next Wf /\ w_active Ws = w_active Wf /\ eff W Ws []).
+  { unfold Ws. destruct n; [split; [reflexivity|split; [reflexivity|split; [reflexivity|exact EF]]]|].
+    destruct (svc_register_fields Wf f) as [[F [Nx _]] [SA _]]. split; [exact F|split; [exact Nx|split; [exact SA|apply svc_register_eff; exact EF]]]. }
+  destruct XS as [F1 [N1 [A1 E1]]].
+  set (W1 := set_delayed (set_active Ws (w_active Ws ++ [gen])) (w_delayed Ws ++ [gen])).
+  assert (E2 : eff W W1 []) by (destruct E1 as [[rs [E P]] R]; split; [exists rs; split; [exact E|exact P]|exact R]).
+  assert (AC1 : forall x, In x (w_active W1) -> In x (w_active W) \/ x = gen).
+  { intros x Hx. unfold W1 in Hx. wsimpl. rewrite A1 in Hx. apply in_app_or in Hx. destruct Hx as [Hx|[<-|[]]]; auto. }
   destruct (memn c (w_auto W)).
-  - (* started at once *)
-    assert (T : w_funcs (ctx_start_func W1 f) = w_funcs W1 /\ w_next (ctx_start_func W1 f) = w_next W1 /\
-                w_active (ctx_start_func W1 f) = w_active W1).
-    { unfold ctx_start_func. destruct (memn (f_gen f) (w_active W1) && memn (f_gen f) (w_delayed W1)); [|repeat split; reflexivity].
-      destruct (f_new f).
-      - unfold dm_start. set (V0 := set_delayed W1 (deln (f_gen f) (w_delayed W1))).
-        assert (K : forall us V, w_funcs (fold_left dec_unit_start us V) = w_funcs V /\ w_next (fold_left dec_unit_start us V) = w_next V /\
-                                 w_active (fold_left dec_unit_start us V) = w_active V).
-        { induction us as [|a r IH]; intros V; cbn [fold_left]; [repeat split; reflexivity|].
-          destruct (IH (dec_unit_start V a)) as [X1 [X2 X3]]. rewrite X1, X2, X3. repeat split; reflexivity. }
-        destruct (K (f_units f) V0) as [X1 [X2 X3]]. destruct (f_svc f); wsimpl; rewrite X1, X2, X3; repeat split; reflexivity.
-      - unfold leg_func_start.
-        assert (K : forall us V, w_funcs (fold_left leg_unit_start us V) = w_funcs V /\ w_next (fold_left leg_unit_start us V) = w_next V /\
-                                 w_active (fold_left leg_unit_start us V) = w_active V).
-        { induction us as [|a r IH]; intros V; cbn [fold_left]; [repeat split; reflexivity|].
-          destruct (IH (leg_unit_start V a)) as [X1 [X2 X3]]. rewrite X1, X2, X3. repeat split; reflexivity. }
-        destruct (K (f_units f) (set_delayed W1 (deln (f_gen f) (w_delayed W1)))) as [X1 [X2 X3]]. rewrite X1, X2, X3. repeat split; reflexivity. }
-    destruct T as [T1 [T2 T3]]. rewrite T1, T2. split; [reflexivity|split; [reflexivity|split; [cbn; lia|split]]].
-    + intros x Hx. rewrite T3 in Hx. apply A1. exact Hx.
-    + destruct (ctx_start_func_eff W1 f) as [fs [E P]]. exists fs. split.
-      * apply (eff_mono _ _ ([] ++ fs)); [intros x Hx; exact Hx|]. eapply eff_trans; [|exact E]. apply eff_same; [reflexivity|exact R1].
+  - destruct (ctx_start_func_tables cfg W1 f) as [T1 [T2 T3]]. rewrite T1, T2. unfold W1 at 1 2. wsimpl. rewrite F1, N1.
+    split; [reflexivity|split; [reflexivity|split; [cbn; lia|split]]].
+    + intros x Hx. apply AC1. apply T3. exact Hx.
+    + destruct (ctx_start_func_eff cfg W1 f) as [fs [E P]]. exists fs. split.
+      * apply (eff_mono _ _ ([] ++ fs)); [intros x Hx; exact Hx|]. eapply eff_trans; [exact E2|exact E].
       * intros f' Hf'. apply P. exact Hf'.
-  - split; [reflexivity|split; [reflexivity|split; [cbn; lia|split; [exact A1|]]]].
-    exists []. split; [apply eff_same; [reflexivity|exact R1]|intros f' []].
+  - unfold W1 at 1 2. wsimpl. rewrite F1, N1. split; [reflexivity|split; [reflexivity|split; [cbn; lia|split; [exact AC1|]]]].
+    exists []. split; [exact E2|intros f' []].
 Qed.
 
 Lemma step_frame cfg W o : all_off cfg -> Inv W -> is_occ o = false ->
@@ -379,20 +451,24 @@ Proof.
     exists fs. split; [exact E|]. intros f Hf. destruct (P f Hf) as [X Y]. split; [rewrite F; exact X|left; exact Y]. }
   destruct o; cbn [is_occ] in NO; try discriminate; cbn [step].
   - (* define *)
-    destruct (define_tables c newsys s W) as [fnew [F [G [Nx [A [fs [E P]]]]]]].
+    destruct (define_tables cfg c newsys s W) as [fnew [F [G [Nx [A [fs [E P]]]]]]].
     split; [right; exists fnew; split; assumption|split; [exact Nx|split; [exact A|]]].
     exists fs. split; [exact E|]. intros f Hf. rewrite (P f Hf). split; [rewrite F; apply in_or_app; right; left; reflexivity|right; exact G].
   - destruct (dropped_inv cfg g W AO HI) as [_ [[T1 T2] S]]. apply FromA; try assumption. apply dropped_eff.
   - apply FromA; try reflexivity; [auto|]. exists []. split; [apply eff_same; reflexivity|intros f []].
-  - unfold ctx_start. destruct (fold_ctx_start c (w_funcs W) W HI (fun f H => H)) as [_ [[T1 T2] A]].
-    apply FromA; wsimpl; try assumption; [intros x Hx; rewrite <- A; exact Hx|]. apply ctx_start_eff. exact HI.
+  - destruct (ctx_start_inv cfg c W AO HI) as [_ [[T1 T2] S]]. apply FromA; try assumption. apply ctx_start_eff; assumption.
   - destruct (ctx_stop_inv cfg c W AO HI) as [_ [[[T1 T2] S] _]]. apply FromA; try assumption.
     apply ctx_stop_eff; [exact AO|exact HI|apply below_refl].
   - unfold unload. destruct (fold_unload cfg AO (all_ctxs W) W HI) as [H1 [[[T1 T2] S1] _]].
-    destruct (settle_inv _ H1) as [_ [[T3 T4] [A3 _]]].
-    apply FromA; try congruence; [intros x Hx; apply S1; rewrite <- A3; exact Hx|]. apply unload_eff; assumption.
+    destruct (resume_all_inv _ H1) as [H2 [[T3 T4] [A3 _]]].
+    destruct (settle_inv _ H2) as [_ [[T5 T6] [A5 _]]].
+    apply FromA; try congruence; [intros x Hx; apply S1; rewrite <- A3, <- A5; exact Hx|]. apply unload_eff; assumption.
   - destruct (prologue_inv u W HI) as [_ [[T1 T2] [A _]]]. apply FromA; try assumption; [intros x Hx; rewrite <- A; exact Hx|].
     apply prologue_eff. exact HI.
+  - destruct (dm_resume_inv g W HI) as [_ [[T1 T2] [A _]]]. apply FromA; try assumption; [intros x Hx; rewrite <- A; exact Hx|].
+    apply dm_resume_eff.
+  - destruct (resume_all_inv W HI) as [_ [[T1 T2] [A _]]]. apply FromA; try assumption; [intros x Hx; rewrite <- A; exact Hx|].
+    apply resume_all_eff; [exact HI|apply below_refl].
   - apply FromA; try reflexivity; [auto|]. exists []. split; [apply do_reap_eff|intros f []].
   - destruct (settle_inv W HI) as [_ [[T1 T2] [A _]]]. apply FromA; try assumption; [intros x Hx; rewrite <- A; exact Hx|].
     apply settle_eff; [exact HI|apply below_refl].
@@ -408,13 +484,13 @@ Proof.
     pose proof (find_none _ _ FU u X) as C. cbn in C. rewrite N.eqb_refl in C. discriminate.
 Qed.
 
-Lemma occ_active cfg W o : Inv W -> is_occ o = true ->
+Lemma occ_active cfg W o : all_off cfg -> Inv W -> is_occ o = true ->
   exists rs, w_log (step cfg W o) = w_log W ++ rs /\ w_led (step cfg W o) = w_led W /\ w_funcs (step cfg W o) = w_funcs W /\
     w_active (step cfg W o) = w_active W /\ w_next (step cfg W o) = w_next W /\
     forall r, In r rs -> In (r_gen r) (w_active W) \/
       exists f u, owns W f u /\ f_gen f = r_gen r /\ In (u_id u) (l_reap (w_led W)).
 Proof.
-  intros HI OC. pose proof HI as [I [S L]].
+  intros AO HI OC. pose proof HI as [I [S L]].
   assert (RUN : forall id, In id (w_running W) -> In (gen_of W id) (w_active W)).
   { intros id H. destruct (so_run W S id H) as [f [u [O [E [A _]]]]]. rewrite <- E, (gen_of_owns W f u HI O). exact A. }
   destruct o; cbn [is_occ] in OC; try discriminate; cbn [step]; unfold add_log.
@@ -440,9 +516,13 @@ Proof.
     + left. rewrite (proj1 (io_unit W I f u O)).
       destruct (so_run W S t H) as [f' [u' [O' [E' [A _]]]]]. destruct (io_uniq W I f' u' f u O' O) as [-> _]; [congruence|].
       exact A.
-  - exists (occ_call g W). repeat split; try reflexivity. intros r Hr. left. unfold occ_call in Hr.
-    destruct (memn g (l_svc (w_led W))) eqn:M; [|destruct Hr]. destruct Hr as [<-|[]]. cbn [r_gen].
-    apply memn_In in M. exact (proj1 (ok_svc W L g M)).
+  - exists (occ_call cfg n W). repeat split; try reflexivity. intros r Hr. left. unfold occ_call, handler in Hr.
+    destruct AO as [_ [_ [_ D21]]]. rewrite D21 in Hr.
+    destruct (rev (filter (has_name W n) (l_svc (w_led W)))) as [|g r0] eqn:RV; [destruct Hr|]. destruct Hr as [<-|[]]. cbn [r_gen].
+    assert (Hg : In g (l_svc (w_led W))).
+    { assert (X : In g (rev (filter (has_name W n) (l_svc (w_led W))))) by (rewrite RV; left; reflexivity).
+      apply in_rev in X. apply filter_In in X. tauto. }
+    exact (proj1 (ok_svc W L g Hg)).
 Qed.
 
 (* ---- no run after stop --------------------------------------------------------------------------- *)
@@ -456,7 +536,7 @@ Lemma step_dead cfg W o g : all_off cfg -> Inv W -> Dead g W ->
 Proof.
   intros AO HI [DA [DN DR]]. pose proof (step_inv cfg W o AO HI) as HI'.
   destruct (is_occ o) eqn:OC.
-  - destruct (occ_active cfg W o HI OC) as [rs [EL [EW [EF [EA [EN P]]]]]]. split.
+  - destruct (occ_active cfg W o AO HI OC) as [rs [EL [EW [EF [EA [EN P]]]]]]. split.
     + split; [rewrite EA; exact DA|split; [rewrite EN; exact DN|]]. intros f u O E. rewrite EW. apply (DR f u); [|exact E].
       apply (owns_same W (step cfg W o) f u EF). exact O.
     + exists rs. split; [exact EL|]. intros r Hr. destruct (P r Hr) as [H|[f [u [O [E H]]]]].
@@ -523,9 +603,10 @@ Proof. intros AO ops0 ops g W HD. apply no_run_after_stop; [exact AO|apply reach
 (* ============================================================================================== *)
 (* the deviations of today's code, on witnesses                                                    *)
 (* ============================================================================================== *)
-Definition cfg_only16 := {| d16_notify_del_return := true; d90_dropped_dm_started := false; d91_pending_subscribes := false |}.
-Definition cfg_only90 := {| d16_notify_del_return := false; d90_dropped_dm_started := true; d91_pending_subscribes := false |}.
-Definition cfg_only91 := {| d16_notify_del_return := false; d90_dropped_dm_started := false; d91_pending_subscribes := true |}.
+Definition cfg_only16 := {| d16_notify_del_return := true; d90_dropped_dm_started := false; d91_pending_subscribes := false; d21_handler_stays := false |}.
+Definition cfg_only90 := {| d16_notify_del_return := false; d90_dropped_dm_started := true; d91_pending_subscribes := false; d21_handler_stays := false |}.
+Definition cfg_only91 := {| d16_notify_del_return := false; d90_dropped_dm_started := false; d91_pending_subscribes := true; d21_handler_stays := false |}.
+Definition cfg_only21 := {| d16_notify_del_return := false; d90_dropped_dm_started := false; d91_pending_subscribes := false; d21_handler_stays := true |}.
 
 (* the three names {a.b, a.b.old, c.d}: entity 1 with two names, entity 2 with one *)
 Definition w_ab := {| i_ent := 1; i_parts := 2; i_tag := 0 |}.
@@ -551,8 +632,10 @@ Lemma D16_order_dependent : leg_cycle cfg_only16 (w_unit [w_cd; w_ab; w_ab_old])
                             leg_cycle cfg_only16 (w_unit [w_ab; w_cd; w_ab_old]) ledger0 = ledger0.
 Proof. split; vm_compute; reflexivity. Qed.
 
-Definition wit_spec (order : list ident) : fspec :=
-  {| s_states := [order]; s_events := [1]; s_times := [{| ts_periodic := false; ts_startup := true; ts_shutdown := true |}]; s_svc := true |}.
+Definition wit_spec_svc (order : list ident) (svc : option N) (pos : nat) : fspec :=
+  {| s_states := [order]; s_events := [1]; s_times := [{| ts_periodic := false; ts_startup := true; ts_shutdown := true |}];
+     s_svc := svc; s_pos := pos |}.
+Definition wit_spec (order : list ident) : fspec := wit_spec_svc order (Some 7) 3.
 
 (* D16 at system level: define in one cell, delete in the next, unload: entity 2 keeps a dead queue *)
 Lemma refuted_D16_baseline :
@@ -562,7 +645,7 @@ Proof. vm_compute. discriminate. Qed.
 
 (* D90: new subsystem, a function redefined in the cell that defined it: the dropped generation 1 still runs *)
 Definition ops_D90 : list op :=
-  [OCtxAuto 0 false; ODefine 0 true (wit_spec [w_ab]); ODefine 0 true (wit_spec [w_ab]); ODropped 1; OCtxStart 0; OSettle; OState 1].
+  [OCtxAuto 0 false; ODefine 0 true (wit_spec [w_ab]); ODefine 0 true (wit_spec [w_ab]); ODropped 1; OCtxStart 0; OResumeAll; OSettle; OState 1].
 Lemma refuted_D90 :
   existsb (fun r => N.eqb (r_gen r) 1 && N.eqb (rkind_code (r_kind r)) 0) (w_log (run_ops cfg_only90 ops_D90 world0)) = true /\
   existsb (fun r => N.eqb (r_gen r) 1 && N.eqb (rkind_code (r_kind r)) 0) (w_log (run_ops cfg_off ops_D90 world0)) = false.
@@ -574,6 +657,36 @@ Lemma refuted_D91 :
   w_led (unload cfg_only91 (run_ops cfg_only91 ops_D91 world0)) <> ledger0 /\
   w_led (unload cfg_off (run_ops cfg_off ops_D91 world0)) = ledger0.
 Proof. split; vm_compute; [discriminate|reflexivity]. Qed.
+
+(* D21: two live functions of one context declare service 7; the newer one is dropped: a call still reaches it *)
+Definition svc_only (n : N) : fspec := {| s_states := []; s_events := []; s_times := []; s_svc := Some n; s_pos := 0 |}.
+Definition ops_D21 : list op := [OCtxAuto 0 true; ODefine 0 false (svc_only 7); ODefine 0 false (svc_only 7); ODropped 2; OSettle; OCall 7].
+Lemma refuted_D21 :
+  map r_gen (w_log (run_ops cfg_only21 ops_D21 world0)) = [2] /\ map r_gen (w_log (run_ops cfg_off ops_D21 world0)) = [1].
+Proof. split; vm_compute; reflexivity. Qed.
+
+Definition ledger_eqb_empty (L : ledger) : bool :=
+  match l_state L, l_event L, l_bus L, l_tasks L, l_reap L, l_svc L with [], [], [], [], [], [] => true | _, _, _, _, _, _ => false end.
+(* the conformant model on the two scenarios of the seeded changes C09-1 and C09-3 *)
+(* a registration of service 7 from context 2 is refused (both subsystems); when the owner's context stops, nothing of
+   either function is left and a call runs nothing *)
+Definition ops_refused (newsys : bool) : list op :=
+  [ODefine 1 newsys (wit_spec [w_ab]); OCtxStart 1; OResumeAll; OSettle;
+   ODefine 2 newsys (wit_spec [w_cd]); OCtxStart 2; OResumeAll; OSettle; OCall 7; OCtxStop 1; OResumeAll; OSettle; OCall 7; OState 2].
+Example ex_refused : forall newsys,
+  let W := run_ops cfg_off (ops_refused newsys) world0 in
+  w_led W = ledger0 /\ svc_count W 7 = 0%nat /\ filter (fun r => N.eqb (rkind_code (r_kind r)) 5) (w_log W) =
+     [{| r_gen := 1; r_kind := RService; r_unit := 1 |}].
+Proof. intros [|]; vm_compute; repeat split; reflexivity. Qed.
+(* new subsystem, @service in front of the triggers: the context is stopped while start() is suspended behind the
+   service registration; when start() resumes it starts nothing, whatever comes later runs nothing *)
+Definition ops_overtake (pos : nat) : list op :=
+  [ODefine 1 true (wit_spec_svc [w_ab] (Some 7) pos); OCtxStart 1; OEvent 1; OCtxStop 1; OResumeAll; OSettle; OEvent 1; OState 1; OCall 7].
+Example ex_overtake :
+  map (fun pos => let W := run_ops cfg_off (ops_overtake pos) world0 in
+                  (ledger_eqb_empty (w_led W), map (fun r => rkind_code (r_kind r)) (w_log W))) [0%nat; 1%nat; 2%nat; 3%nat] =
+  [(true, []); (true, []); (true, [1]); (true, [3; 1; 4])].
+Proof. vm_compute. reflexivity. Qed.
 
 (* ============================================================================================== *)
 (* examples: the hypotheses of the theorems are inhabited by non-trivial instances                 *)
@@ -604,13 +717,13 @@ Proof. split; vm_compute; [reflexivity|discriminate]. Qed.
 
 (* a reachable world in which generation 1 is Dead and generation 3 still runs *)
 Definition ex_ops0 : list op :=
-  [OCtxAuto 0 true; ODefine 0 false (wit_spec [w_ab; w_cd]); ODefine 0 false (wit_spec [w_ab]); OSettle; OState 1; ODropped 1; OSettle].
+  [OCtxAuto 0 true; ODefine 0 false (wit_spec [w_ab; w_cd]); ODefine 0 false (wit_spec_svc [w_ab] (Some 8) 3); OSettle; OState 1; ODropped 1; OSettle].
 Example ex_dead : Dead 1 (run_ops cfg_off ex_ops0 world0) /\
   map r_gen (w_log (run_ops cfg_off (ex_ops0 ++ [OState 1; OEvent 1]) world0)) = [1; 3; 1; 3; 1; 3; 3].
 Proof.
   split; [|vm_compute; reflexivity].
   assert (E : run_ops cfg_off ex_ops0 world0 =
-    settle (run_ops cfg_off [OCtxAuto 0 true; ODefine 0 false (wit_spec [w_ab; w_cd]); ODefine 0 false (wit_spec [w_ab]); OSettle; OState 1; ODropped 1] world0))
+    settle (run_ops cfg_off [OCtxAuto 0 true; ODefine 0 false (wit_spec [w_ab; w_cd]); ODefine 0 false (wit_spec_svc [w_ab] (Some 8) 3); OSettle; OState 1; ODropped 1] world0))
     by (vm_compute; reflexivity).
   rewrite E.
   apply dead_after_settle; vm_compute; [intros [H|[]]; discriminate|reflexivity].
